@@ -423,6 +423,12 @@ def labels_to_script(paths, reset_line="Reset", conv=None):
 GCC_ASAN = ["gcc", "-std=gnu11", "-O1", "-g", "-fsanitize=address", "-fno-omit-frame-pointer", "-DLIBRFN_VERIF", "-DHAVE_CONFIG_H=0"]
 
 
+# A second build configuration: what a release build for a small target looks like (assertions compiled out, plain char
+# unsigned as on ARM EABI, full optimisation).  The properties quantify over the library's behaviour, not over one set of
+# compiler flags; a side effect hidden in an assert(), or a table of plain chars holding -1, only shows here.
+ALT_FLAGS = ["-DNDEBUG", "-funsigned-char", "-O2"]
+
+
 def build_driver(run, name, driver_src, repo_srcs, extra_flags=(), cc=None, libs=()):
     exe = run.path(name)
     cmd = list(cc or GCC_ASAN) + list(extra_flags)
